@@ -160,8 +160,9 @@ def run_history(ctx, seed):
                     info['replacements_expected'] = info.get('replacements_expected', 0) + 1
                     if cur is before or cur is None or pool._is_replacing:
                         viol.append(('overloaded-connection-not-replaced', 'conn %d reached the orphan threshold (%d orphans) and a request was started afterwards, '
-                                     'but after a drain the pool still uses %s (_is_replacing=%s)' % (
-                                         before.sim_id, len(before.orphaned_request_ids), 'it' if cur is before else 'no connection', pool._is_replacing)))
+                                     'but after a drain the replacement is not complete: the pool uses %s, _is_replacing=%s' % (
+                                         before.sim_id, len(before.orphaned_request_ids),
+                                         'the same connection' if cur is before else ('no connection' if cur is None else 'conn %d' % cur.sim_id), pool._is_replacing)))
             # requests started now must go to the new connection
             for _ in range(rng.randint(1, 3)):
                 send('rows', LONG)
@@ -236,8 +237,11 @@ def run(ctx):
     n = ctx.scale(900, 60000)
     budget = 44 if ctx.quick else 420
     base = ctx.seed * 1000003 + (ctx.worker or 0) * 100003
+    import time as _t
+    # wall-clock only bounds the amount of work (never a verdict); keep a minimum of work when start-up on a busy box ate the budget
+    t_end = _t.time() + max(15 if ctx.quick else 120, ctx.time_left(budget))
     for i in range(n):
-        if ctx.time_left(budget) < 0:
+        if _t.time() > t_end:
             ctx.note("stopped by time budget after %d histories" % i)
             break
         seed = base + i
